@@ -451,7 +451,7 @@ def call_method(interp, recv, name, args, kwargs):
     if name == 'join':
         from . import models
         return models.m_str_join(interp, recv, args, kwargs)
-    if name == 'format' or name == '__mod__':
+    if name in ('format', 'format_map', '__mod__'):
         return SStr(_fresh(interp, 'fmt'))
     if name == 'replace':
         old, new = args[0], args[1]
